@@ -27,6 +27,11 @@ type c05Case struct {
 	Clients  int        `json:"clients"`
 	Messages int        `json:"messages_per_client"`
 	Faults   []c05Fault `json:"faults"`
+	// PingEvery > 0: every PingEvery-th message of a client is a PING (answered to the sender only)
+	PingEvery int `json:"ping_every,omitempty"`
+	// ResendEvery > 0: after every ResendEvery-th acknowledgement the client behaves as if the
+	// response had been lost and posts the same line with the same client message id again
+	ResendEvery int `json:"resend_every,omitempty"`
 }
 
 type c05Client struct {
@@ -54,6 +59,13 @@ func c05Execute(c *c05Case, base string) (fail *vh.Failure, labels []string, non
 		return vh.Failf("harness", "config: %d %s", code, body), nil, false
 	}
 	lab := map[string]bool{}
+	isPing := func(name, text string) bool {
+		var n int
+		if _, err := fmt.Sscanf(strings.TrimPrefix(text, name+"-"), "%d", &n); err != nil {
+			return false
+		}
+		return c.PingEvery > 0 && n%c.PingEvery == c.PingEvery-1
+	}
 	cmid := uint64(1000)
 	var cmidMu sync.Mutex
 	next := func() uint64 { cmidMu.Lock(); defer cmidMu.Unlock(); cmid++; return cmid }
@@ -81,7 +93,7 @@ func c05Execute(c *c05Case, base string) (fail *vh.Failure, labels []string, non
 		}
 		clients = append(clients, &c05Client{cred: cred, name: fmt.Sprintf("s%d", k)})
 	}
-	var inFlightDuringFault int32
+	var inFlightDuringFault, resent int32
 	var faultActive int32
 	var wg sync.WaitGroup
 	deadline := time.Now().Add(40 * time.Second)
@@ -93,6 +105,10 @@ func c05Execute(c *c05Case, base string) (fail *vh.Failure, labels []string, non
 			for seq := 0; seq < c.Messages && time.Now().Before(deadline); seq++ {
 				text := fmt.Sprintf("%s-%d", cl.name, seq)
 				id := next()
+				line := "PRIVMSG #c :" + text
+				if c.PingEvery > 0 && seq%c.PingEvery == c.PingEvery-1 {
+					line = "PING " + text
+				}
 				// the bridge's protocol: one message in flight, retry the SAME client message id until acknowledged
 				for time.Now().Before(deadline) {
 					node := cur.Load().(*inode)
@@ -102,7 +118,7 @@ func c05Execute(c *c05Case, base string) (fail *vh.Failure, labels []string, non
 					// a request that is in flight when its node goes down is a broken connection to the
 					// client (an in-process raft that shuts down may never answer a pending apply)
 					res := make(chan int, 1)
-					go func() { res <- node.post(cl.cred, "PRIVMSG #c :"+text, id) }()
+					go func() { res <- node.post(cl.cred, line, id) }()
 					code := 0
 					select {
 					case code = <-res:
@@ -111,6 +127,16 @@ func c05Execute(c *c05Case, base string) (fail *vh.Failure, labels []string, non
 					}
 					if code == 200 {
 						cl.acked = append(cl.acked, text)
+						if c.ResendEvery > 0 && seq%c.ResendEvery == 0 {
+							// the acknowledgement got lost on the way: the bridge repeats the request
+							res2 := make(chan int, 1)
+							go func() { res2 <- cur.Load().(*inode).post(cl.cred, line, id) }()
+							select {
+							case <-res2:
+							case <-time.After(2 * time.Second):
+							}
+							atomic.AddInt32(&resent, 1)
+						}
 						break
 					}
 					if code == 404 {
@@ -179,6 +205,53 @@ func c05Execute(c *c05Case, base string) (fail *vh.Failure, labels []string, non
 			break
 		}
 	}
+	// a second sentinel from the observer: the sender of the first one does not receive it
+	sentinel2 := fmt.Sprintf("sentinel-%d", next())
+	for k := 0; k < 200; k++ {
+		if node.post(observer, "PRIVMSG #c :"+sentinel2, next()) == 200 {
+			break
+		}
+	}
+	ended := func(m []streamed) bool {
+		for _, x := range m {
+			if strings.Contains(x.Data, sentinel) || strings.Contains(x.Data, sentinel2) {
+				return true
+			}
+		}
+		return false
+	}
+	if atomic.LoadInt32(&resent) > 0 {
+		lab["c05:acknowledged-post-repeated-with-same-id"] = true
+	}
+	// PINGs are answered to the sender only: every sender's own stream
+	for _, cl := range clients {
+		if c.PingEvery == 0 || cl.gone {
+			continue
+		}
+		own, code := node.readStream(cl.cred, cl.cred.Auth, "0.0", ended, 3*time.Second)
+		if code != 200 {
+			return vh.Failf("sender-stream-refused", "GET messages for %s answered %d after the schedule", cl.name, code), keys2(lab), true
+		}
+		if !ended(own) {
+			continue // inconclusive for this sender
+		}
+		pongs := map[string]int{}
+		for _, m := range own {
+			f := strings.Fields(m.Data)
+			if len(f) >= 3 && f[1] == "PONG" {
+				pongs[strings.TrimPrefix(f[len(f)-1], ":")]++
+			}
+		}
+		lab["c05:pings"] = true
+		for _, t := range cl.acked {
+			if !isPing(cl.name, t) {
+				continue
+			}
+			if pongs[t] != 1 {
+				return vh.Failf("acknowledged-ping-not-answered-exactly-once", "PING %q of %s was acknowledged with HTTP 200 and is answered %d times in the sender's stream after the faults %+v (resend_every=%d)", t, cl.name, pongs[t], c.Faults, c.ResendEvery), keys2(lab), true
+			}
+		}
+	}
 	msgs, code := node.readStream(observer, observer.Auth, "0.0", func(m []streamed) bool {
 		for _, x := range m {
 			if strings.Contains(x.Data, sentinel) {
@@ -204,6 +277,9 @@ func c05Execute(c *c05Case, base string) (fail *vh.Failure, labels []string, non
 	}
 	for _, cl := range clients {
 		for _, t := range cl.acked {
+			if isPing(cl.name, t) {
+				continue // a PING: judged in the sender's stream above
+			}
 			if count[t] != 1 {
 				return vh.Failf("acknowledged-message-not-exactly-once", "message %q was acknowledged with HTTP 200 but is delivered %d times after the faults %+v", t, count[t], c.Faults), keys2(lab), true
 			}
@@ -217,6 +293,9 @@ func c05Execute(c *c05Case, base string) (fail *vh.Failure, labels []string, non
 		pos := 0
 		seq := order[cl.name]
 		for _, t := range cl.acked {
+			if isPing(cl.name, t) {
+				continue
+			}
 			for pos < len(seq) && seq[pos] != t {
 				pos++
 			}
@@ -252,7 +331,8 @@ func TestVerifC05(t *testing.T) {
 		return
 	}
 	rapid.Check(t, func(rt *rapid.T) {
-		c := &c05Case{Clients: rapid.IntRange(2, 4).Draw(rt, "clients"), Messages: rapid.IntRange(5, 40).Draw(rt, "messages")}
+		c := &c05Case{Clients: rapid.IntRange(2, 4).Draw(rt, "clients"), Messages: rapid.IntRange(5, 40).Draw(rt, "messages"),
+			PingEvery: rapid.SampledFrom([]int{0, 2, 3, 5}).Draw(rt, "pingevery"), ResendEvery: rapid.SampledFrom([]int{0, 1, 3, 4}).Draw(rt, "resendevery")}
 		nf := rapid.IntRange(1, 5).Draw(rt, "nfaults")
 		for k := 0; k < nf; k++ {
 			c.Faults = append(c.Faults, c05Fault{
